@@ -354,6 +354,8 @@ def c20(ctx):
     vf.tlaps(ctx, "proofs/RemoveProof.tla")      # RemoveLast / ErrorKeepsControl / OkMeansAllGone (Move, Remove), arbitrary N
     # a third engine: the Copy machine's inductive invariant incl. SuccessPost / FailureReported, every N <= 8 at once
     vf.apalache(ctx, "apalache/UploadApa.tla", [("Init", "Inv", 0), ("InvInit", "Inv", 1), ("InvInit", "Post", 0)])
+    # the Move machine over both directories: every file in exactly one place in every state
+    vf.apalache(ctx, "apalache/MoveApa.tla", [("Init", "Inv", 0), ("InvInit", "Inv", 1), ("InvInit", "Post", 0)])
     g1 = gen(ctx, "UploadGen.tla", "UploadGen_%s.cfg" % t, ctx.path("up.ndjson"), what="upload scenarios")
     judge(ctx, "C20", g1, what="inotify traces vs upload model")
     ctx.exhaustive = True
